@@ -22,6 +22,21 @@ FORBIDDEN = re.compile(r"\b(sorry|admit|native_decide|bv_decide|implemented_by|u
 PY = "/venv/bin/python"
 
 
+def load_prop(pid):
+    """property = oracle module (props/cXX.py) + lean obligations (leanspec) + optional correspondence module (corr/cXX.py)"""
+    prop = importlib.import_module("harness.props." + pid.lower())
+    from harness import leanspec
+    spec = leanspec.SPEC.get(pid, {})
+    for k, v in spec.items():
+        if not hasattr(prop, k):
+            setattr(prop, k, v)
+    try:
+        prop.CORR = importlib.import_module("harness.corr." + pid.lower())
+    except ModuleNotFoundError:
+        prop.CORR = None
+    return prop
+
+
 def log(*a):
     print("[check]", *a, file=sys.stderr, flush=True)
 
@@ -126,19 +141,25 @@ def _alarm(signum, frame):
     raise CaseTimeout()
 
 
-def eval_case(prop, case, want_ops=True):
+def eval_case(prop, case, want_ops=True, src="prop"):
     """Run oracle and correspondence-side of one case on the real library."""
     r = {"hash": lib.case_hash(case), "failures": [], "ops": [], "expected": [], "nontrivial": False, "tags": []}
+    if src == "corr":
+        prop = prop.CORR
     signal.signal(signal.SIGALRM, _alarm)
     signal.alarm(getattr(prop, "CASE_TIMEOUT", 60))
     try:
         try:
-            r["nontrivial"] = bool(prop.nontrivial(case))
+            r["nontrivial"] = bool(prop.nontrivial(case)) if hasattr(prop, "nontrivial") else True
             if hasattr(prop, "tags"):
                 r["tags"] = list(prop.tags(case))
-            r["failures"] = list(prop.oracle(case) or [])
-            if want_ops and hasattr(prop, "model_ops"):
-                ops, exp = prop.model_ops(case)
+            if hasattr(prop, "oracle"):
+                r["failures"] = list(prop.oracle(case) or [])
+            mo = getattr(prop, "model_ops", None)
+            if mo is None and src == "prop" and getattr(prop, "CORR", None) is not None:
+                mo = getattr(prop.CORR, "model_ops_for_prop_case", None)
+            if want_ops and mo is not None:
+                ops, exp = mo(case)
                 assert len(ops) == len(exp), "model_ops: %d ops vs %d expected" % (len(ops), len(exp))
                 r["ops"], r["expected"] = ops, exp
         finally:
@@ -153,15 +174,18 @@ def eval_case(prop, case, want_ops=True):
 
 def _worker(args):
     pid, tier, seed, idxs = args
-    prop = importlib.import_module("harness.props." + pid.lower())
+    prop = load_prop(pid)
     lib.import_gfapy()
     out = []
     for kind, i in idxs:
-        if kind == "x":
-            case = prop.exhaustive_case(i, tier)
+        src = "corr" if kind.startswith("c") else "prop"
+        m = prop.CORR if src == "corr" else prop
+        if kind in ("x", "cx"):
+            case = m.exhaustive_case(i, tier)
         else:
-            case = prop.gen_case(lib.Rng(lib.sub_seed(seed, pid, i)), tier, i)
-        r = eval_case(prop, case)
+            case = m.gen_case(lib.Rng(lib.sub_seed(seed, pid, kind, i)), tier, i)
+        r = eval_case(prop, case, src=src)
+        r["src"] = src
         r["idx"] = (kind, i)
         if r["failures"] or r.get("infra") or i < 3:
             r["case"] = case
@@ -182,6 +206,10 @@ def python_side(prop, tier, seed, budget_scale=1.0):
     n_ex = prop.n_exhaustive(tier) if hasattr(prop, "n_exhaustive") else 0
     n_rand = int(prop.budget(tier) * budget_scale)
     idxs = [("x", i) for i in range(n_ex)] + [("r", i) for i in range(n_rand)]
+    C = getattr(prop, "CORR", None)
+    if C is not None and hasattr(C, "gen_case"):
+        n_cx = C.n_exhaustive(tier) if hasattr(C, "n_exhaustive") else 0
+        idxs += [("cx", i) for i in range(n_cx)] + [("cr", i) for i in range(int(C.budget(tier) * budget_scale))]
     ncpu = min(16, os.cpu_count() or 1)
     chunk = max(1, min(200, len(idxs) // (ncpu * 4) + 1))
     jobs = [(prop.ID, tier, seed, idxs[i:i + chunk]) for i in range(0, len(idxs), chunk)]
@@ -244,14 +272,14 @@ def main():
     except ValueError:
         seed = 0
     pid = a.prop.upper()
-    prop = importlib.import_module("harness.props." + pid.lower())
+    prop = load_prop(pid)
     t0 = time.time()
 
     if a.replay:
         payload = json.load(open(a.replay))
         lib.import_gfapy()
         if payload.get("kind") in ("oracle", "correspondence") and "case" in payload:
-            r = eval_case(prop, payload["case"])
+            r = eval_case(prop, payload["case"], src=payload.get("src", "prop"))
             print(json.dumps({"failures": r["failures"], "infra": r.get("infra")}, indent=1))
             if r["ops"]:
                 n, dis = correspondence([r])
@@ -322,7 +350,7 @@ def main():
                 except Exception:
                     pass
             path = write_replay(pid, seed, nrep, {"property": pid, "kind": "oracle", "case": case, "failure": f,
-                                                  "signature": sig, "idx": r.get("idx"),
+                                                  "signature": sig, "idx": r.get("idx"), "src": r.get("src", "prop"),
                                                   "replay_cmd": "./check %s --replay <this file>" % pid})
             nrep += 1
             violations.append("VIOLATION property=%s replay=%s" % (pid, path))
